@@ -63,7 +63,7 @@ def numeric_replay_against_numpy(G, names=None):
 
 
 def kernel_job(prog: str, order: str = "given", seed: int = 0) -> JobOut:
-    progs = {p.name: p for p in C.corpus("thorough" if prog.startswith("gen") else "quick", seed)}
+    progs = {p.name: p for p in C.corpus("thorough" if prog.startswith("gen") else "quick", seed, exclude=())}
     P = progs[prog]
     listed = load_findings("C01")
     try:
@@ -78,7 +78,14 @@ def kernel_job(prog: str, order: str = "given", seed: int = 0) -> JobOut:
                                   f"{type(e).__name__}: {e}\n{traceback.format_exc(limit=6)}")])
     sides = []
     pre = f"{prog}/{order}"
-    sides.append(Side(f"{pre}/kernel-structure", not G.model.structural_problems, G.model.structural_problems[:5]))
+    probs = list(G.model.structural_problems)
+    KEY = "c01-zero-size-stored-reduction"
+    if KEY in listed and "zsr" in P.tags:
+        # listed finding: keyed by exactly this program and this kind of malformation; anything else still counts
+        mine = [q for q in probs if "has no domain" in q]
+        probs = [q for q in probs if "has no domain" not in q]
+        sides.append(Side(f"known:{KEY}", ok=not mine, detail=mine[:3]))
+    sides.append(Side(f"{pre}/kernel-structure", not probs, probs[:5]))
     data = G.data
     want_np = C.build_numpy(P, data)
     table = arg_table(G.model)
@@ -150,7 +157,7 @@ def kernel_job(prog: str, order: str = "given", seed: int = 0) -> JobOut:
 
 def jobs(tier: str, seed: int):
     th = tier == "thorough"
-    progs = C.corpus(tier, seed)
+    progs = C.corpus(tier, seed, exclude=())
     J = []
     for i, P in enumerate(progs):
         orders = list(ORDERS) if th or i % 3 == 0 else ["given"]
